@@ -373,11 +373,31 @@ def miri_tier(prop, jobs, work, tests_per_shard=120, budget_s=900):
 
 
 def sample_records(j, n=3):
-    if j.get('shards'):
+    """a few ACTUAL cases of this run, preferring non-trivial ones: a test from a non-empty state (its jump + event) and an evicting put"""
+    if not j.get('shards'):
+        return None
+    recs = []
+    try:
         with open(j['shards'][0]) as f:
-            lines = [next(f, None) for _ in range(n)]
-        return dict(instance=j['tag'], first_records=[json.loads(l) for l in lines if l])
-    return None
+            for i, line in enumerate(f):
+                if i >= 4000:
+                    break
+                recs.append(json.loads(line))
+    except Exception:
+        return None
+    picked = []
+    for i, r in enumerate(recs[:-1]):
+        if r.get('op') == 'jump' and r.get('obs', {}).get('empty') is False and recs[i + 1].get('op') != 'jump':
+            picked += [r, recs[i + 1]]
+            break
+    for r in recs:
+        t = (r.get('ret') or {}).get('t')
+        if t in ('Evicted', 'EvictedAndUpdate') or (r.get('fault') or {}).get('fired'):
+            picked.append(r)
+            break
+    if not picked:
+        picked = recs[:n]
+    return dict(instance=j['tag'], records=picked[:4])
 
 
 # anti-vacuity: event kinds ("op:result variant") that a run of the property must have exercised on the implementation
